@@ -30,6 +30,9 @@ fn f(x: i32) -> i32 { let a = x * 3; let b = ye(1); let r = { p: a, q: b }; let 
 fn t(x: u64) -> u64 { let t1 = mk(x); ye(3); let t2 = t1; ye(4); val(t1) + val(t2) + KT.payload() }
 fn s(x: i32) -> String { let s1 = f\"a{x}\"; ye(5); let s2 = s1 + \"b\"; ye(6); s2 + s1 }
 fn l(lst: List[u64], v: u64) -> u64 { let n = lst.len(); ye(7); lst.push(v); ye(8); lst.len() - n }
+fn fc(cs: List[char]) -> String { String.from_chars(cs) }
+fn jn(ss: List[String]) -> String { ss.join(\"-\") }
+fn cat(a: List[char], b: List[char]) -> String { String.from_chars(a + b) }
 ";
 
 #[derive(Clone, Copy, Debug, PartialEq, Eq, PartialOrd, Ord)]
@@ -42,9 +45,16 @@ enum Op {
     GetCall,      // get_function on the thread's own package (registry lock points), call, drop
     CompileCall,  // compile on the SHARED runtime, get, call, drop package and handle (hot reload)
     DropPkg,      // drop the package the shared handles came from
+    FromChars,    // script: String.from_chars(shared List[char])
+    SwapChars,    // Rust: swap(0, 2) on the shared List[char]
+    Join,         // script: shared List[String].join("-")
+    SwapStrs,     // Rust: swap(0, 2) on the shared List[String]
+    CatChars,     // script: String.from_chars(cs + cs)
 }
 
 const MENU_QUICK: [Op; 5] = [Op::CallT, Op::CallL, Op::GetCall, Op::CompileCall, Op::DropPkg];
+/// a built-in that reads a whole shared list must see ONE state of it
+const MENU_LISTS: [Op; 5] = [Op::FromChars, Op::SwapChars, Op::Join, Op::SwapStrs, Op::CatChars];
 const MENU_FULL: [Op; 8] = [
     Op::CallF,
     Op::CallT,
@@ -64,6 +74,16 @@ struct Handles {
     t: TypedFunc<NoCtx, fn(u64) -> u64>,
     s: TypedFunc<NoCtx, fn(i32) -> RotoString>,
     l: TypedFunc<NoCtx, fn(List<u64>, u64) -> u64>,
+    fc: TypedFunc<NoCtx, fn(List<char>) -> RotoString>,
+    jn: TypedFunc<NoCtx, fn(List<RotoString>) -> RotoString>,
+    cat: TypedFunc<NoCtx, fn(List<char>, List<char>) -> RotoString>,
+}
+
+#[derive(Clone)]
+struct Lists {
+    nums: List<u64>,
+    chars: List<char>,
+    strs: List<RotoString>,
 }
 
 fn runtime() -> Runtime<NoCtx> {
@@ -85,6 +105,9 @@ fn handles(pkg: &mut Package<NoCtx>) -> Result<Handles, String> {
         t: pkg.get_function("t").map_err(|e| e.to_string())?,
         s: pkg.get_function("s").map_err(|e| e.to_string())?,
         l: pkg.get_function("l").map_err(|e| e.to_string())?,
+        fc: pkg.get_function("fc").map_err(|e| e.to_string())?,
+        jn: pkg.get_function("jn").map_err(|e| e.to_string())?,
+        cat: pkg.get_function("cat").map_err(|e| e.to_string())?,
     })
 }
 
@@ -97,8 +120,9 @@ fn run_op(
     rt: &Runtime<NoCtx>,
     own_pkg: &Mutex<Option<Package<NoCtx>>>,
     shared_pkg: &Mutex<Option<Package<NoCtx>>>,
-    list: &List<u64>,
+    lists: &Lists,
 ) -> Result<(), String> {
+    let list = &lists.nums;
     let x = (tid * 10 + k + 1) as i32;
     match op {
         Op::CallF => {
@@ -160,6 +184,28 @@ fn run_op(
             let p = shared_pkg.try_lock().map_err(|_| "shared package locked".to_string())?.take();
             drop(p);
         }
+        // the shared lists only ever hold [x, a, y] or [y, a, x] (swaps of the
+        // two ends): a reader must return one of the two states
+        Op::FromChars => {
+            let got = h.fc.call(lists.chars.clone()).to_string();
+            if got != "xay" && got != "yax" {
+                return Err(format!("from_chars(shared) = {got:?}: not a state the list was ever in"));
+            }
+        }
+        Op::CatChars => {
+            let got = h.cat.call(lists.chars.clone(), lists.chars.clone()).to_string();
+            if got != "xayxay" && got != "yaxyax" {
+                return Err(format!("from_chars(cs + cs) = {got:?}: not a state the list was ever in"));
+            }
+        }
+        Op::SwapChars => lists.chars.swap(0, 2),
+        Op::Join => {
+            let got = h.jn.call(lists.strs.clone()).to_string();
+            if got != "x-a-y" && got != "y-a-x" {
+                return Err(format!("join(shared) = {got:?}: not a state the list was ever in"));
+            }
+        }
+        Op::SwapStrs => lists.strs.swap(0, 2),
     }
     Ok(())
 }
@@ -167,12 +213,19 @@ fn run_op(
 fn shapes(tier: Tier) -> Vec<(usize, usize, &'static [Op], usize)> {
     // (threads, ops per thread, menu, preemption bound)
     match tier {
-        Tier::Quick => vec![(2, 1, &MENU_FULL[..], usize::MAX), (2, 2, &MENU_QUICK[..], 2)],
+        Tier::Quick => vec![
+            (2, 1, &MENU_FULL[..], usize::MAX),
+            (2, 2, &MENU_QUICK[..], 2),
+            (2, 1, &MENU_LISTS[..], usize::MAX),
+            (2, 2, &MENU_LISTS[..], 2),
+        ],
         Tier::Thorough => vec![
             (2, 1, &MENU_FULL[..], usize::MAX),
             (2, 2, &MENU_FULL[..], 3),
             (3, 1, &MENU_FULL[..], 3),
             (2, 3, &MENU_QUICK[..], 2),
+            (2, 2, &MENU_LISTS[..], usize::MAX),
+            (3, 1, &MENU_LISTS[..], usize::MAX),
         ],
     }
 }
@@ -274,6 +327,11 @@ fn run_program(p: &Program, bound: usize) -> (u64, u64, Vec<Failure>, usize) {
             };
             let list: List<u64> = List::new();
             list.push(0);
+            let lists = Lists {
+                nums: list.clone(),
+                chars: List::from(vec!['x', 'a', 'y']),
+                strs: List::from(vec![RotoString::from("x"), RotoString::from("a"), RotoString::from("y")]),
+            };
             let errors = Arc::new(Mutex::new(Vec::<String>::new()));
             let pushes: Vec<u64> = p
                 .iter()
@@ -288,7 +346,7 @@ fn run_program(p: &Program, bound: usize) -> (u64, u64, Vec<Failure>, usize) {
                 let h = h.clone();
                 let rt = rt.clone();
                 let shared_pkg = shared_pkg.clone();
-                let list = list.clone();
+                let lists = lists.clone();
                 let errors = errors.clone();
                 let own = if ops.contains(&Op::GetCall) {
                     Some(host::compile(&rt, SCRIPT).expect("script compiles"))
@@ -300,7 +358,7 @@ fn run_program(p: &Program, bound: usize) -> (u64, u64, Vec<Failure>, usize) {
                     unwind_ok: false,
                     body: Box::new(move || {
                         for (k, op) in ops.iter().enumerate() {
-                            if let Err(e) = run_op(*op, tid, k, &h, &rt, &own, &shared_pkg, &list) {
+                            if let Err(e) = run_op(*op, tid, k, &h, &rt, &own, &shared_pkg, &lists) {
                                 errors.lock().unwrap().push(format!("t{tid} {op:?}: {e}"));
                             }
                         }
